@@ -104,8 +104,26 @@ impl fmt::Debug for Obj {
                 }
             }
         });
+        // the general form: a hook that is told every text rendered on this thread (cloned out of the
+        // cell first: what it does may render further objects)
+        let hook = DEBUG_HOOK.with(|h| h.borrow().clone());
+        if let Some(hook) = hook {
+            // a value that misbehaves does so half-way through its text
+            let mut cut = self.debug.len() / 2;
+            while !self.debug.is_char_boundary(cut) {
+                cut += 1;
+            }
+            f.write_str(&self.debug[..cut])?;
+            hook(&self.debug);
+            return f.write_str(&self.debug[cut..]);
+        }
         f.write_str(&self.debug)
     }
+}
+
+thread_local! {
+    /// see `impl Debug for Obj`
+    pub static DEBUG_HOOK: std::cell::RefCell<Option<std::rc::Rc<dyn Fn(&str)>>> = const { std::cell::RefCell::new(None) };
 }
 
 thread_local! {
